@@ -205,6 +205,11 @@ func GenLedgerPlan(p *PRNG, cfg Config, o LedgerGenOpts) Plan {
 				op.A, op.C, op.Amt = p.Intn(3), p.Intn(3), "=12345"
 			case "unjail":
 				op.A = p.Intn(cfg.NOps)
+			case "dfparams":
+				op.A, op.N, op.D = p.Intn(3), int64(p.Range(1, 4)), 0
+				if p.Chance(1, 3) {
+					op.D = p.Range(cfg.NVals, 5)
+				}
 			case "replay":
 				op.N = int64(p.Intn(1 << 20))
 			default:
